@@ -37,10 +37,10 @@ Definition L_COMMENT_OPEN : str := [60; 33; 45; 45].    (* <!-- *)
 Definition L_COMMENT_CLOSE : str := [45; 45; 62].       (* --> *)
 Definition L_PI_OPEN : str := [60; 63].                 (* <? *)
 Definition L_PI_CLOSE : str := [63; 62].                (* ?> *)
-Definition L_DECL_HEAD : str :=                         (* <?xml version="1.0" encoding=" *)
+Definition L_DECL_HEAD : str :=                         (* <?xml version=Q1.0Q encoding=Q  with Q the double quote *)
   [60; 63; 120; 109; 108; 32; 118; 101; 114; 115; 105; 111; 110; 61; 34; 49; 46; 48; 34; 32;
    101; 110; 99; 111; 100; 105; 110; 103; 61; 34].
-Definition L_DECL_TAIL : str := [34; 63; 62].           (* "?> *)
+Definition L_DECL_TAIL : str := [34; 63; 62].           (* Q?> *)
 Definition L_XML : str := [60; 63; 120; 109; 108].      (* <?xml *)
 Definition L_xml : str := [120; 109; 108].              (* xml *)
 Definition L_VERSION : str := [118; 101; 114; 115; 105; 111; 110].        (* version *)
